@@ -286,8 +286,12 @@ func (c *c14) malformed(base *valWorld) {
 		{"validator address with account prefix", func() error {
 			return k.RegisterExecutorChangePlan(5, 503, NewValKey(9).Operator.String(), "m", goodKey, "i", goodExec)
 		}},
-		{"executor address undecodable (last)", func() error { return k.RegisterExecutorChangePlan(6, 504, goodOp, "m", goodKey, "i", []string{goodExec[0], "xyz"}) }},
-		{"executor address undecodable (first)", func() error { return k.RegisterExecutorChangePlan(6, 508, goodOp, "m", goodKey, "i", []string{"xyz", goodExec[0]}) }},
+		{"executor address undecodable (last)", func() error {
+			return k.RegisterExecutorChangePlan(6, 504, goodOp, "m", goodKey, "i", []string{goodExec[0], "xyz"})
+		}},
+		{"executor address undecodable (first)", func() error {
+			return k.RegisterExecutorChangePlan(6, 508, goodOp, "m", goodKey, "i", []string{"xyz", goodExec[0]})
+		}},
 		{"executor address undecodable (middle)", func() error {
 			return k.RegisterExecutorChangePlan(6, 509, goodOp, "m", goodKey, "i", []string{goodExec[0], "", base.e.Executors[1].String()})
 		}},
